@@ -868,7 +868,22 @@ def rewrite_macros(toks):
                 else:
                     cond = args[0]
                 nx = sidx(toks, c + 1)
-                if nx < len(toks) and is_p(toks[nx], ";"):
+                # `debug_assert*!` does not evaluate its arguments in builds without debug assertions: an argument
+                # that calls something which may mutate (`debug_assert!(file.rewind().is_ok())`) is executed in
+                # one build profile and skipped in the other. The contracts are about both: such a statement is
+                # guarded by an unknown boolean (prelude: vf_debug_assertions_enabled()), so that everything after
+                # it has to verify with and without the side effect. (Pure arguments keep the plain form.)
+                argtxt = "".join(t.s for t in cond if t.k not in ("ws", "comment", "mark"))
+                impure = name.startswith("debug_") and re.search(
+                    r"\.(rewind|seek|read|read_exact|write|write_all|flush|update|update_\w+|push|pop|clear|reset|fill|"
+                    r"set_position|zeroize|insert|remove|truncate|extend\w*|take|next|finalize_\w*reset\w*|set_\w+|"
+                    r"try_push|drain|swap|copy_from_slice|fill_\w+|merge_\w+|push_\w+|advance\w*|consume)\(", argtxt)
+                if impure:
+                    new = T("if crate::vf_debug_assertions_enabled() { let vf_dbg: bool = ", like) + cond + T("; assert(vf_dbg); }", like)
+                    if nx < len(toks) and is_p(toks[nx], ";"):
+                        # `if c { .. };` is fine in statement position
+                        pass
+                elif nx < len(toks) and is_p(toks[nx], ";"):
                     # statement position: two plain statements (a bare block right after a loop body
                     # trips Verus' parser)
                     new = T("let vf_dbg: bool = ", like) + cond + T("; assert(vf_dbg)", like)
